@@ -62,6 +62,12 @@ type genConfig struct {
 	ShadowBuiltins bool
 	// GlobalVar declares the global GV (assigned and read by the script).
 	GlobalVar bool
+	// FuncTwins: textually identical function literals in several top-level statements, and comparisons of the
+	// resulting function values (function values are compared by identity).
+	FuncTwins bool
+	// NilGlobals: the host runs the VM without a globals object. The host functions arrive as parameters after PA, PB
+	// and the script keeps a global GV of its own (first assigned from PA, so that it differs per VM).
+	NilGlobals bool
 	// CallMark emits call sites of script functions as placeholders that are
 	// later rendered either as in-script calls or as calls through the host
 	// (Invoker): the two variants of one script (C14).
@@ -87,6 +93,7 @@ type gen struct {
 	loop     int
 	mods     []srcModule
 	gmods    []*gmod
+	twins    int
 	Top      []string   // top-level statements
 	TopVars  [][]string // names readable after the i-th top-level statement (non-function, non-module)
 	features map[string]bool
@@ -704,7 +711,12 @@ func (g *gen) stmt(lvl int) string {
 func (g *gen) shareStmt(lvl int) string {
 	in := ind(lvl)
 	e := g.fresh("err")
-	switch g.t.Draw(7) {
+	switch g.t.Draw(8) {
+	case 7: // callbacks nested many levels deep: every level holds a pooled child VM of its own
+		f, d := g.fresh("fr"), g.fresh("d")
+		return in + "var " + f + "\n" + in + f + " = func(n) {\n" + in + "\tif n <= 0 { return len(WID) }\n" + in + "\t" + d + " := 0\n" +
+			in + "\timport(\"strings\").Map(func(c) { " + d + " = " + f + "(n - 1); return c }, \"a\")\n" + in + "\treturn " + d + " + 1\n" + in + "}\n" +
+			in + "log(" + f + "(" + fmt.Sprint(12+g.t.Draw(40)) + "))\n"
 	case 6: // a Go builtin module function with internal look-ups
 		zone := []string{"\"UTC\"", "\"\"", "\"Local\"", fmt.Sprintf("\"Etc/GMT+%d\"", 1+g.t.Draw(12)), fmt.Sprintf("\"Etc/GMT-%d\"", 1+g.t.Draw(14))}[g.t.Draw(5)]
 		e := g.fresh("err")
@@ -850,7 +862,7 @@ func (g *gen) addTop(st string) {
 }
 
 func (g *gen) program() (string, []srcModule) {
-	if g.cfg.GlobalVar {
+	if g.cfg.GlobalVar || g.cfg.NilGlobals {
 		g.declare(gvar{name: "GV", t: tInt})
 	}
 	if g.cfg.Params {
@@ -896,11 +908,23 @@ func (g *gen) program() (string, []srcModule) {
 			g.addTop(st)
 			continue
 		}
+		if g.cfg.FuncTwins && g.t.Bool(1, 5) {
+			if g.twins < 4 && (g.twins < 2 || g.t.Bool(1, 2)) {
+				name := fmt.Sprintf("tw%d", g.twins)
+				g.twins++
+				g.declare(gvar{name: name, t: tFn, arity: 1, ret: tInt, konst: true})
+				g.addTop(name + " := func(x) { return x + 1 }\n")
+			} else {
+				a, b := g.t.Draw(g.twins), g.t.Draw(g.twins)
+				g.addTop(fmt.Sprintf("log(tw%d == tw%d, tw%d != tw%d, contains([tw%d], tw%d))\n", a, b, b, a, a, b))
+			}
+			continue
+		}
 		if g.cfg.ShadowBuiltins && g.t.Bool(1, 6) {
 			// a user definition takes over a builtin name for the rest of the script
 			// (only builtins the generator never calls by itself: using a builtin and declaring its name later in the
 			// same compile unit is a compile error that depends on whether the optimizer folded the use away)
-			name := []string{"contains", "bool", "uint", "chars", "isInt", "isString", "isMap", "isUndefined"}[g.t.Draw(8)]
+			name := []string{"isChar", "bool", "uint", "chars", "isInt", "isString", "isMap", "isUndefined"}[g.t.Draw(8)]
 			body := []string{"return 42", "return \"shadowed\"", "return [x]", "return x"}[g.t.Draw(4)]
 			if g.t.Bool(1, 2) {
 				g.addTop(name + " := func(x, ...y) { " + body + " }\n")
@@ -934,6 +958,9 @@ func (g *gen) program() (string, []srcModule) {
 			"log(\x01fzm\x02\x03, \x01fzm\x02\x03)\nlog(import(\"modA\").get())\n")
 	}
 	g.addTop(g.probe())
+	if g.cfg.NilGlobals {
+		return "param (PA, PB, log, op, choose, call, trace, WID)\nglobal GV\nGV = PA*7 + 1\n" + strings.Join(g.Top, ""), g.mods
+	}
 	if g.cfg.Params {
 		return sim.Prelude + "param (PA, PB)\n" + strings.Join(g.Top, ""), g.mods
 	}
